@@ -709,9 +709,9 @@ class EvolutionSuperOperator(SuperOperator, TimeDependent, Saveable):
         if time is not None:
             ti, dt = self.time.locate(time)
 
-            return SuperOperator(data=self.data[ti, :, :, :, :])
+            return SuperOperator(data=self.data[ti, :, :, :, :].copy())
         else:
-            return SuperOperator(data=self.data)
+            return SuperOperator(data=self.data.copy())
 
           
     def apply(self, time, target, copy=True):
